@@ -16,6 +16,10 @@ corr       : the REAL tcpcl.session.ContactHandler (recv_raw â†’ recv_message â†
              thorough: the same rows with many concrete certificates each (several entries per kind, match at
                        any position, IPv4/IPv6/network entries, no-extension / empty / foreign-only SAN),
                        every flags octet, SSLError subclasses, random free-form SAN lists.
+             config  : the requirement as a configuration file gives it: every way of writing the four policy options
+                       (key absent / true / false, null for require_tls) is written to a file, read by the REAL
+                       Config.from_file (yaml stub = JSON subset of YAML), compared with `tls.loadcfg`, and the handler
+                       is built from that Config; monitors judge against what the file says.
 monitors   : written from the property text, independent of the model; run on every case.
 regression : six former defects of this code are repaired in /repo (D27 ssl.match_hostname, D13 uncompared DNS-ID,
              peer without certificate, plaintext SESS_INIT carried across the handshake, OSError in the handshake,
@@ -173,6 +177,74 @@ def free_scenario(rng):
                 pipelined=rng.random() < 0.2, peer_name=name, sock_peer=addr, peer_node=node, cert=cert)
 
 
+# ------------------------------------------------------------------------------------------ configuration file
+# "the configured requirement": the documented defaults of tcpcl.config.Config (comments of config.py / README),
+# written here independently of the model
+FILE_DEFAULTS = dict(tls_enable=True, require_tls=None, require_host_authn=False, require_node_authn=False)
+ABSENT = object()
+
+
+def file_contents():
+    ''' every way of giving the four policy options in a file: key absent / each value (null for require_tls) '''
+    for te in (ABSENT, True, False):
+        for rt in (ABSENT, None, True, False):
+            for rh in (ABSENT, True, False):
+                for rn in (ABSENT, True, False):
+                    opts = dict(tls_enable=te, require_tls=rt, require_host_authn=rh, require_node_authn=rn)
+                    yield {k: v for k, v in opts.items() if v is not ABSENT}
+
+
+def file_says(opts, form='section'):
+    ''' what a reader of the file understands the configuration to be '''
+    if form in ('no-section', 'empty'):
+        opts = {}
+    return {k: opts.get(k, d) for k, d in FILE_DEFAULTS.items()}
+
+
+def file_scenario(opts, form, passive, peer_flags, handshake='ok'):
+    says = file_says(opts, form)
+    addr = ADDR[4]
+    return dict(passive=passive, tls_enable=says['tls_enable'], require_tls=says['require_tls'],
+                require_host=says['require_host_authn'], require_node=says['require_node_authn'],
+                peer_flags=peer_flags, handshake=handshake, pipelined=False,
+                peer_name=addr if passive else NAME, sock_peer=addr, peer_node=NODE,
+                cert=dict(san=True, ip=[T.ip_bytes(addr).hex()], dns=[NAME], uri=[NODE]),
+                config_file=opts, config_file_form=form)
+
+
+def config_file_unit(chk):
+    ''' Config.from_file alone: every file content x form, real loader || tls.loadcfg, and the monitor
+    "every option the file gives is the option in force" '''
+    cases = [(opts, form) for opts in file_contents() for form in ('section', 'with-others')]
+    cases += [({}, 'no-section'), ({}, 'empty'), ({'require_tls': False}, 'no-section')]
+    reqs = [{'op': 'tls.loadcfg', 'passive': False,
+             'cfg_file': dict(opts) if form in ('section', 'with-others') else {}} for (opts, form) in cases]
+    for (opts, form), ans in zip(cases, chk.driver(reqs)):
+        cfg = T.config_from_file(opts, form)
+        got = {k: getattr(cfg, k) for k in T.POLICY_OPTIONS}
+        replay = {'config_file': opts, 'form': form, 'text': T.config_file_text(opts, form), 'loaded': got}
+        chk.case(replay, nontrivial=True)
+        chk.count('config-file:%s' % form)
+        m = ans.get('cfg', {})
+        model = dict(tls_enable=m.get('tls_enable'), require_tls=m.get('require_tls'),
+                     require_host_authn=m.get('require_host'), require_node_authn=m.get('require_node'))
+        if got != model:
+            chk.corr_break('Config.from_file differs from the model (loadFile): loaded %s, model %s'
+                           % (json.dumps(got), json.dumps(model)), replay)
+        else:
+            chk.cov['traces_validated_against_impl'] += 1
+        check_loaded(chk, opts, form, got, replay)
+
+
+def check_loaded(chk, opts, form, got, replay):
+    says = file_says(opts, form)
+    for k in T.POLICY_OPTIONS:
+        if got[k] != says[k] or type(got[k]) is not type(says[k]):
+            chk.violation('C15:config-file-option-not-honoured-%s' % k,
+                          'configuration file says %s = %r, Config.from_file leaves %r: the node does not run the configured requirement'
+                          % (k, says[k], got[k]), replay)
+
+
 # ------------------------------------------------------------------------------------------ model request / canonical forms
 def model_request(sc, native, quirks=None):
     cert = sc.get('cert')
@@ -184,12 +256,17 @@ def model_request(sc, native, quirks=None):
         cj = {'san': [['ip', h] for h in cert.get('ip', [])] + [['dns', d] for d in cert.get('dns', [])] +
               [['uri', u] for u in cert.get('uri', [])] + [['other'] for _ in cert.get('other', [])]}
     req = {'op': 'tls.negotiate',
-            'cfg': {'passive': sc['passive'], 'tls_enable': bool(sc['tls_enable']), 'require_tls': sc['require_tls'],
-                    'require_host': bool(sc['require_host']), 'require_node': bool(sc['require_node'])},
             'env': {'peer_flags': sc['peer_flags'], 'handshake': HS_MODEL[sc['handshake']], 'pipelined': bool(sc.get('pipelined')),
                     'native': bool(native)},
             'conn': {'peer_name': sc['peer_name'], 'sock_addr': sc['sock_peer'], 'sock_octets': T.ip_bytes(sc['sock_peer']).hex(),
                      'node': sc['peer_node'], 'cert': cj}}
+    if 'config_file' in sc:
+        # the model reads the same file content (loadFile); forms without a tcpcl section carry no option
+        req['cfg_file'] = dict(sc['config_file']) if sc.get('config_file_form', 'section') in ('section', 'with-others') else {}
+        req['passive'] = sc['passive']
+    else:
+        req['cfg'] = {'passive': sc['passive'], 'tls_enable': bool(sc['tls_enable']), 'require_tls': sc['require_tls'],
+                      'require_host': bool(sc['require_host']), 'require_node': bool(sc['require_node'])}
     if quirks is not None:
         req['quirks'] = quirks
     return req
@@ -397,6 +474,8 @@ class Batch(object):
                 if ans['peer'] != intended:
                     chk.corr_break('certificate -> IdResult abstraction differs from the intended row: %s vs %s'
                                    % (json.dumps(ans['peer']), json.dumps(intended)), replay)
+            if 'config_file' in sc:
+                check_loaded(chk, sc['config_file'], sc.get('config_file_form', 'section'), obs['loaded_cfg'], replay)
             if obs.get('transfer_accepted') and obs['state'] == 'ending':
                 chk.count('transfer-accepted-after-contact-failure')
             monitors(chk, sc, obs, replay)
@@ -499,6 +578,19 @@ def one_pass(chk):
         for rh, rn in (((False, False), (True, True)) if not thorough else ((False, False), (False, True), (True, False), (True, True))):
             b.add(concretise(dict(row, require_host=rh, require_node=rn), rng), 'contact')
     b.flush()
+    # the configured requirement as a configuration file gives it: every file content through the real Config.from_file
+    for opts in file_contents():
+        for passive in (False, True):
+            for flags in (0, 1):
+                b.add(file_scenario(opts, 'section', passive, flags), 'config-file')
+    for form in ('with-others', 'no-section', 'empty'):
+        for opts in ({'require_tls': False}, {'tls_enable': False}, {'require_tls': True, 'require_host_authn': True}, {}):
+            b.add(file_scenario(opts, form, True, 1), 'config-file')
+    if thorough:
+        for opts in file_contents():
+            for hs in ('sslerror', 'reset'):
+                b.add(file_scenario(opts, 'with-others', bool(len(opts) % 2), 1, handshake=hs), 'config-file')
+    b.flush()
     for row in session_rows():
         b.add(concretise(row, rng), 'session', probe=True)
     b.flush()
@@ -530,9 +622,11 @@ def run(chk):
     chk.assumptions += [
         'TLS handshake, chain validation and the ssl module are parameters: a fake ssl context scripts the handshake result and returns the generated certificate from getpeercert(True)',
         'ipaddress.ip_address parsing of getpeername()[0] is not modelled (the model receives the packed address)',
+        'configuration files are read through harness/stubs/yaml.py (PyYAML is not installed): the JSON-compatible subset of YAML; option values have their declared types',
         'peer names are non-empty; node IDs are valid UTF-8; the OtherName (NODE-ID as otherName) branch of match_id is not reachable from merge_session_params and not exercised',
     ]
     config_defaults(chk)
+    config_file_unit(chk)
     one_pass(chk)
     match_id_unit(chk, 400 if chk.tier == 'quick' else 20000)
     n = chk.cov['distribution'].get('transfer-accepted-after-contact-failure', 0)
@@ -544,12 +638,28 @@ def run(chk):
 def replay(chk, path):
     obj = json.load(open(path))
     r = obj.get('replay', obj)
+    if 'scenario' not in r:
+        # Config.from_file alone
+        cfg = T.config_from_file(r['config_file'], r.get('form', 'section'))
+        got = {k: getattr(cfg, k) for k in T.POLICY_OPTIONS}
+        print('file     :', r.get('text'))
+        print('recorded :', json.dumps(r.get('loaded')))
+        print('now      :', json.dumps(got))
+        before = len(chk.violations)
+        check_loaded(chk, r['config_file'], r.get('form', 'section'), got, r)
+        bad = len(chk.violations) > before
+        print('REPRODUCED' if bad else 'not reproduced')
+        return 1 if bad else 0
     sc = r['scenario']
     obs = T.run_scenario(sc, probe_transfer=True)
     print('scenario :', json.dumps(sc, default=str))
     print('recorded :', json.dumps(canon_impl(sc, r['observed'])) if 'observed' in r else None)
     print('now      :', json.dumps(canon_impl(sc, obs)))
     hits = monitors(chk, sc, obs, r)
+    if 'config_file' in sc:
+        before = len(chk.violations)
+        check_loaded(chk, sc['config_file'], sc.get('config_file_form', 'section'), obs['loaded_cfg'], r)
+        hits += [v['signature'] for v in chk.violations[before:]]
     print('monitors :', hits)
     want = obj.get('signature')
     bad = (want in hits) if want else bool(hits)
